@@ -207,6 +207,8 @@ val filter : ('a1 -> bool) -> 'a1 list -> 'a1 list
 
 val find : ('a1 -> bool) -> 'a1 list -> 'a1 option
 
+val combine : 'a1 list -> 'a2 list -> ('a1 * 'a2) list
+
 val seq : nat -> nat -> nat list
 
 type ascii =
@@ -585,6 +587,8 @@ val render_pieces : row -> piece list -> string res
 
 val line_of_row : row -> string res
 
+val export : row list -> string list res
+
 val clean : string -> bool
 
 val fits_int : z -> z -> val0 -> bool
@@ -679,6 +683,10 @@ val nats_of_V : v -> nat list
 val vtables : row list list -> v
 
 val run_many : string -> v list -> v option
+
+val snapshot : row list -> row list res
+
+val run_store : string -> v list -> v option
 
 val vresS : string res -> v
 
